@@ -106,6 +106,7 @@ type env struct {
 		id string
 	}
 	reqReal   map[string]string // abstract request id -> real id (hex)
+	ckpt      *namingCkpt
 	predicted map[string]string // contexts to be created in the block being built
 	fired     []firing
 	mods      []*modAction
@@ -198,6 +199,7 @@ func newEnv(fl *drv.Flags) *env {
 		e.off[d] = c.Supply(ctx, d).Sub(sum)
 	}
 	c.Project = func(ctx sdk.Context) any { return e.observe(ctx) }
+	c.BundleHook = e.bundleHook
 	return e
 }
 
@@ -252,16 +254,55 @@ func txKey(ctx sdk.Context) string {
 	return hexSha(ctx.TxBytes())
 }
 
+// firingKey: callbacks fired by a message of a bundled transaction (several events of the
+// behaviour delivered as ONE real transaction) are attributed to that message.
+func (e *env) firingKey(ctx sdk.Context) string {
+	k := txKey(ctx)
+	if i := e.c.MsgIndex(ctx); i >= 0 {
+		k += fmt.Sprintf("#%d", i)
+	}
+	return k
+}
+
+// bundleHook keeps the naming of contexts and requests (assigned in order of first
+// appearance in a projection) independent of projections taken inside a bundled transaction
+// that is rolled back afterwards.
+func (e *env) bundleHook(phase string) {
+	cp := func(m map[string]string) map[string]string {
+		o := make(map[string]string, len(m))
+		for k, v := range m {
+			o[k] = v
+		}
+		return o
+	}
+	switch phase {
+	case "start":
+		e.ckpt = &namingCkpt{cp(e.ctxName), cp(e.ctxReal), cp(e.reqReal), len(e.ctxMaps), len(e.fired)}
+	case "abort":
+		if e.ckpt != nil {
+			e.ctxName, e.ctxReal, e.reqReal = e.ckpt.ctxName, e.ckpt.ctxReal, e.ckpt.reqReal
+			e.ctxMaps = e.ctxMaps[:e.ckpt.nMaps]
+			e.fired = e.fired[:e.ckpt.nFired]
+			e.ckpt = nil
+		}
+	}
+}
+
+type namingCkpt struct {
+	ctxName, ctxReal, reqReal map[string]string
+	nMaps, nFired             int
+}
+
 // --- callbacks of the module "verif" ---------------------------------------
 
 func (e *env) onResponse(ctx sdk.Context, id tmbytes.HexBytes, responses []string, err error) {
 	rc, _ := e.c.K.Service.GetRequestContext(ctx, id)
-	e.fired = append(e.fired, firing{key: txKey(ctx), ctx: id.String(), batch: int64(rc.BatchCounter),
+	e.fired = append(e.fired, firing{key: e.firingKey(ctx), ctx: id.String(), batch: int64(rc.BatchCounter),
 		outs: int64(len(responses)), err: err != nil})
 }
 
 func (e *env) onState(ctx sdk.Context, id tmbytes.HexBytes, cause string) {
-	e.fired = append(e.fired, firing{key: txKey(ctx), ctx: id.String(), state: true})
+	e.fired = append(e.fired, firing{key: e.firingKey(ctx), ctx: id.String(), state: true})
 }
 
 // --- observation ------------------------------------------------------------
@@ -903,15 +944,8 @@ func (e *env) runBlock(pending []chain.M, nextDt int64) bool {
 	e.predicted = map[string]string{}
 	seqs := map[string]uint64{}
 	created := 0
-	for _, ev := range pending {
-		if modEvents[chain.Str(ev, "name")] {
-			e.mods = append(e.mods, &modAction{ev: ev})
-			a := e.c.Accts[modSigner].Addr
-			txs = append(txs, chain.Tx{Signer: modSigner, Msgs: []sdk.Msg{
-				banktypes.NewMsgSend(a, a, sdk.NewCoins(sdk.NewInt64Coin(modDenom, int64(len(e.mods)))))}})
-			e.predict(ev, txs[len(txs)-1], seqs, &created)
-			continue
-		}
+	// the message of an ordinary event (built with the ids known or predicted so far)
+	build := func(ev chain.M) (string, sdk.Msg) {
 		who := chain.Str(ev, "who")
 		msg := e.msgOf(ev)
 		if _, ok := e.c.Accts[who]; !ok {
@@ -922,8 +956,40 @@ func (e *env) runBlock(pending []chain.M, nextDt int64) bool {
 			who = e.users[0]
 			msg = &servicetypes.MsgPauseRequestContext{RequestContextId: "unsignable", Consumer: e.addrOf(who).String()}
 		}
-		txs = append(txs, chain.Tx{Signer: who, Msgs: []sdk.Msg{msg}})
-		e.predict(ev, txs[len(txs)-1], seqs, &created)
+		return who, msg
+	}
+	// pass 1: the block's skeleton (signers and message types decide how the chain groups the
+	// transactions into real ones).  An event that names a context created earlier in this
+	// very block stays a transaction of its own: its message carries the id, which contains
+	// the hash of the creating transaction.
+	for _, ev := range pending {
+		if modEvents[chain.Str(ev, "name")] {
+			e.mods = append(e.mods, &modAction{ev: ev})
+			a := e.c.Accts[modSigner].Addr
+			txs = append(txs, chain.Tx{Signer: modSigner, NoBundle: true, Msgs: []sdk.Msg{
+				banktypes.NewMsgSend(a, a, sdk.NewCoins(sdk.NewInt64Coin(modDenom, int64(len(e.mods)))))}})
+			continue
+		}
+		who, msg := build(ev)
+		tx := chain.Tx{Signer: who, Msgs: []sdk.Msg{msg}}
+		if c := chain.Str(ev, "ctx"); c != "" {
+			if _, known := e.ctxReal[c]; !known {
+				tx.NoBundle = true
+			}
+		}
+		txs = append(txs, tx)
+	}
+	// pass 2: real transaction by real transaction, in order: rebuild the members' messages
+	// with the ids predicted so far, sign, and predict the ids of the contexts it creates
+	_, groups := e.c.PlanBlock(txs)
+	for _, g := range groups {
+		for _, m := range g {
+			if !modEvents[chain.Str(pending[m], "name")] {
+				who, msg := build(pending[m])
+				txs[m].Signer, txs[m].Msgs = who, []sdk.Msg{msg}
+			}
+		}
+		e.predictGroup(pending, txs, g, seqs, &created)
 	}
 	dt := e.nextDt
 	e.nextDt = nextDt
@@ -937,6 +1003,12 @@ func (e *env) runBlock(pending []chain.M, nextDt int64) bool {
 	mi := 0
 	for i, ev := range pending {
 		r := res.Txs[i]
+		if r.Aborted {
+			// member of a multi-message transaction that failed as a whole (chain.BundlePct):
+			// whatever it did was rolled back; the specification knows no such event and
+			// treats it as a rejection without effect
+			ev["name"] = "TxFailed"
+		}
 		ok, pan := r.OK, r.Panic
 		if modEvents[chain.Str(ev, "name")] {
 			a := e.mods[mi]
@@ -953,7 +1025,11 @@ func (e *env) runBlock(pending []chain.M, nextDt int64) bool {
 				ev["log"] = e.mods[mi-1].log
 			}
 		}
-		cbs, scbs := e.firingsOf(r.TxHash)
+		fkey := r.TxHash
+		if r.Bundle > 1 {
+			fkey += fmt.Sprintf("#%d", r.BundlePos) // one message per event
+		}
+		cbs, scbs := e.firingsOf(fkey)
 		if ok {
 			ev["cbs"], ev["scbs"] = cbs, scbs
 		}
@@ -970,28 +1046,28 @@ func (e *env) runBlock(pending []chain.M, nextDt int64) bool {
 	return true
 }
 
-// predict mirrors chain.RunBlock's signing of tx (same sequences, same bytes)
-// and, for a creation predicted to succeed, records the id the new context will get.
-func (e *env) predict(ev chain.M, tx chain.Tx, seqs map[string]uint64, created *int) {
-	for _, m := range tx.Msgs {
-		if vb, ok := m.(sdk.HasValidateBasic); ok && vb.ValidateBasic() != nil {
-			return // not delivered, consumes no sequence number
-		}
-	}
-	bz, err := e.c.BuildTx(tx, seqs)
+// predictGroup mirrors chain.RunBlock's signing of one real transaction (the members g of the
+// block's transactions; same sequences, same bytes) and, for every creation predicted to
+// succeed, records the id the new context will get: hash of the REAL transaction that carries
+// the message, followed by the per-block creation index.
+func (e *env) predictGroup(pending []chain.M, txs []chain.Tx, g []int, seqs map[string]uint64, created *int) {
+	bz, err := e.c.BuildTx(chain.MergeTx(txs, g), seqs)
 	if err != nil {
 		return
 	}
-	n := chain.Str(ev, "name")
-	if pok, has := ev["pok"]; (n == "Call" || n == "ModCall") && (!has || pok.(bool)) {
-		idx := make([]byte, 8)
-		binary.BigEndian.PutUint64(idx, uint64(*created))
-		real := strings.ToUpper(hexSha(bz) + hex.EncodeToString(idx))
-		e.predicted[fmt.Sprintf("c%d", len(e.ctxName)+1+*created)] = real
-		if os.Getenv("VERIF_DEBUG") != "" {
-			fmt.Fprintln(os.Stderr, "predict", fmt.Sprintf("c%d", len(e.ctxName)+1+*created), real)
+	for _, m := range g {
+		ev := pending[m]
+		n := chain.Str(ev, "name")
+		if pok, has := ev["pok"]; (n == "Call" || n == "ModCall") && (!has || pok.(bool)) {
+			idx := make([]byte, 8)
+			binary.BigEndian.PutUint64(idx, uint64(*created))
+			real := strings.ToUpper(hexSha(bz) + hex.EncodeToString(idx))
+			e.predicted[fmt.Sprintf("c%d", len(e.ctxName)+1+*created)] = real
+			if os.Getenv("VERIF_DEBUG") != "" {
+				fmt.Fprintln(os.Stderr, "predict", fmt.Sprintf("c%d", len(e.ctxName)+1+*created), real)
+			}
+			*created++
 		}
-		*created++
 	}
 }
 
